@@ -46,6 +46,9 @@ def fixed_cases(tier):
         for b in alpha:
             out.append({"k": "tok_exh", "prefix": a + b, "L": L, "alpha": "q" if tier == "quick" else "t"})
     out.append({"k": "tok_exh_short", "alpha": "q" if tier == "quick" else "t"})
+    if tier == "thorough":
+        for k in range(4):
+            out.append({"k": "atheris", "seed": k, "runs": 400000})
     files = corpus.files()
     for f in files:
         out.append({"k": "emit", "file": f, "level": 0, "lseed": 0, "enc": "utf-8", "eol": "\n"})
@@ -138,6 +141,8 @@ def run_case(case, tier):
         if nt >= 2:
             res["nontrivial"].append(common.h("t", s))
         return res
+    if k == "atheris":
+        return _atheris(case, res)
     if k == "emit":
         return _emit(case, res)
     if k == "cli":
@@ -348,3 +353,37 @@ def shrink(case, sig, tier, budget):
         c.pop("file", None)
         return common.shrink_text_case(run_case, c, sig, tier, budget)
     return case
+
+
+def _atheris(case, res):
+    """coverage-guided campaign (atheris/libFuzzer) on tokens.create with the round-trip oracle inside the target"""
+    import glob
+    import subprocess
+    import sys
+
+    d = os.path.join(vsgapi.scratch_dir(), "atht_%d_%d" % (os.getpid(), case["seed"]))
+    os.makedirs(d, exist_ok=True)
+    env = dict(os.environ)
+    env["VERIF_REPO"] = vsgapi.REPO
+    p = subprocess.run([sys.executable, os.path.join(vsgapi.VERIF, "harness", "fuzz", "tokens_atheris.py"), "-runs=%d" % case["runs"], "-seed=%d" % (500 + case["seed"] + int(os.environ.get("VERIF_SEED", "1")) * 16), "-max_len=300"], cwd=d, env=env, capture_output=True, timeout=3000)
+    err = p.stderr.decode("utf-8", "replace")
+    res["evals"] = case["runs"]
+    res["labels"]["atheris_tokenizer_runs"] = case["runs"]
+    res["nontrivial"] = ["atht%d_%d" % (case["seed"], i) for i in range(case["runs"] // 100)]
+    if p.returncode != 0:
+        import ast
+        import re as _re
+
+        m = _re.search(r"RoundTripViolation: (.*)", err)
+        line = None
+        if m:
+            try:
+                line = ast.literal_eval(m.group(1).strip())
+            except Exception:
+                line = None
+        if line is not None:
+            _tok_check(line, res)
+        if not res["failures"]:
+            res["failures"].append({"sig": {"kind": "tokenizer_fuzz_target_failed"}, "detail": {"stderr": err[-400:]}, "case": {"k": "tok_rand", "s": line or ""}})
+    res["sample"] = {"kind": "atheris_tokenizer", "runs": case["runs"], "exit": p.returncode}
+    return res
